@@ -2,7 +2,7 @@ SPECIFICATION Spec
 CONSTANTS
   Isas = {"x64"}
   MaxBlocks = 2
-  Templates = {"o23", "ret1"}
+  Templates = {"o23", "ret1", "z0"}
   Layouts = {"one"}
   FnTables = {"present"}
   Names = {"fa"}
